@@ -86,7 +86,7 @@ def renderHeader (p : P) (dirChain mfChain : List Nat) : ByteArray :=
   let b := pushLE b 4 (if p.v4 then dirChain.length else 0)
   let b := pushLE b 4 p.difat.length
   let b := pushLE b 4 p.dirStart
-  let b := pushLE b 4 0
+  let b := pushLE b 4 p.txSig
   let b := pushLE b 4 Gen.MINI_STREAM_CUTOFF
   let b := pushLE b 4 p.miniFatStart
   let b := pushLE b 4 mfChain.length
